@@ -63,7 +63,7 @@ def check_case(case, res):
             obj, raised = None, "ValueError"
         except Exception as exc:  # noqa: BLE001
             obj, raised = None, type(exc).__name__
-        res.case(("ctor", case["cls"], case["type"]))
+        res.case(("ctor", case["cls"], case["type"], case.get("round", 0)))
         res.outcome((case["cls"], case["type"], raised))
         if want_ok and raised:
             res.violation("class-refuses-own-type", case, f"{case['cls']}({case['type']}) raised {raised}", "accepted", raised)
@@ -150,9 +150,11 @@ def check_case(case, res):
 
 
 def _cases():
-    for cls in CLASSES:
-        for t in EXPECT_TYPES:
-            yield {"kind": "ctor", "cls": cls, "type": t}
+    # every pair three times, the later passes in other orders: a verdict must not depend on what was tried before
+    pairs = [(cls, t) for cls in CLASSES for t in EXPECT_TYPES]
+    for rnd, order in enumerate((pairs, list(reversed(pairs)), sorted(pairs, key=lambda p: (p[1], p[0])))):
+        for cls, t in order:
+            yield {"kind": "ctor", "cls": cls, "type": t, "round": rnd}
     for t in EXPECT_TYPES:
         yield {"kind": "type", "type": t}
     for c in sorted(set(CLASSES.values())):
@@ -189,8 +191,9 @@ def run_job(job):
 
 def replay(case):
     res = Res()
-    if case.get("kind") == "extra":
-        return run_job({}).violations
+    if case.get("kind") == "extra" or case.get("round"):
+        # a verdict that depends on earlier attempts needs the whole sequence of attempts
+        return [v for v in run_job({}).violations if v["case"] == case] or run_job({}).violations
     check_case(case, res)
     return res.violations
 
